@@ -37,6 +37,12 @@ REJECTS = [
     ("incompatible-parameter-type", "onPoked: function(a: QString) { console.log(a) }"),
     ("incompatible-second-parameter", "onPoked: function(a: int, b: QString) { console.log(a) }"),
     ("incompatible-parameter-type-renamed", "onRenamed: function(a: int) { console.log(a) }"),
+    # numerically castable is not compatible: the lambda would receive a converted (wrapped, truncated) value
+    ("castable-parameter-uint-for-int", "onPoked: function(a: uint) { console.log(a) }"),
+    ("castable-parameter-double-for-int", "onPoked: function(a: double) { console.log(a) }"),
+    ("castable-parameter-int-for-bool", "onPoked: function(a: int, b: int) { console.log(b) }"),
+    ("castable-parameter-bool-for-int", "onTuned: function(a: bool) { console.log(a) }"),
+    ("castable-parameter-int-for-enum-free-double", "onTuned: function(a: int, b: double) { console.log(b) }"),
 ]
 
 
@@ -47,6 +53,8 @@ REAL_REJECTS = [   # on real classes, with the overload sets of the working tree
     ("real-incompatible-parameter-toggled", "QCheckBox", "onToggled: function(a: QString) { console.log(a) }"),
     ("real-slot-is-not-a-signal", "QLineEdit", "onClear: console.log(1)"),
     ("real-too-many-parameters-returnPressed", "QLineEdit", "onReturnPressed: function(a: int) { console.log(a) }"),
+    ("real-castable-parameter-uint-sliderMoved", "QSlider", "onSliderMoved: function(p: uint) { console.log(p) }"),
+    ("real-castable-parameter-int-for-bool-clicked", "QPushButton", "onClicked: function(c: int) { console.log(c) }"),
 ]
 
 
